@@ -417,6 +417,30 @@ func TestC20Logs(t *testing.T) {
 			rec.Class(c, int64(k))
 		}
 		rec.Evals(int64(len(file)))
+		// an entry damaged on disk (one bit of the checksum of a dialect message): the entries before it are read, then
+		// the damage is reported the way the frame reader reports rejected input - a frame.ReadError the caller can tell
+		// from the end of the file - and never as an entry
+		if di != nil {
+			for k, e := range good {
+				if e.msg == nil {
+					continue
+				}
+				bad := append([]byte(nil), file...)
+				hdr := 6
+				if e.flat.V2 {
+					hdr = 10
+				}
+				bad[ends[k]+8+hdr+len(e.flat.Payload)] ^= 0x10
+				got, derr := readLog(bad, drw)
+				var re frame.ReadError
+				if len(got) != k || derr == nil || !asReadError(derr, &re) {
+					evid.ReplayNote("C20", "TestC20Logs", fmt.Sprintf("file %x\nentry %d damaged in its checksum: %d entries, error %T %v", bad, k, len(got), derr, derr))
+					t.Fatalf("entry %d of %d damaged in its checksum: the reader returns %d entries and then %T %v; want the %d entries before it and a frame.ReadError", k, len(good), len(got), derr, derr, k)
+				}
+				rec.Class("damaged-entry-reported-as-parse-error", 1)
+				break
+			}
+		}
 		// a failing io.Writer is reported
 		if len(good) > 0 {
 			total := fw.calls
